@@ -345,6 +345,14 @@ class C07(SentProp):
             pl = bytes([v]) if v not in (44, 42) else b"0"
             line = ais.sentence(pl + b"0", fill=0)
             ops += ["N 0", "N 1", L(line, 0, 0), L(line, 1, 1)]
+            # every sequence id 0..255 on an unfragmented sentence (accepted whatever the id), with leading zeros
+            for txt in {str(v).encode(), b"0" + str(v).encode(), b"00" + str(v).encode()}:
+                if int(txt) <= 255:
+                    line = ais.sentence(p, fill=f, nf=1, fn=1, mid_txt=txt)
+                    ops += ["N 0", "N 1", L(line, 0, 0), L(line, 1, 1)]
+            # first fragments with that id as well
+            line = ais.sentence(p, fill=f, nf=2, fn=1, mid=v)
+            ops += ["N 0", "N 1", L(line, 0, 0), L(line, 1, 1)]
         yield ("bytes", ops)
 
     def judge(self, rep, cfg, label, ops, impl, model):
@@ -373,6 +381,11 @@ class C07(SentProp):
                 if dec == "0" and pa["msg_kind"] != "none":
                     rep.violation("C07: decoded message present although decoding was not requested",
                                   {"cfg": cfg, "ops": ["N 0", op], "impl": a})
+            elif dec == "0" and ref[0] == "ok" and not C08.seq_reject(ref[1]) and pa["cls"] == "E":
+                # with decoding off payload-level errors are not raised: a well-formed, checksum-valid,
+                # correctly sequenced line must be accepted whatever its payload bytes are
+                rep.violation(f"C07: well-formed line rejected with decode=false ({a[:40]!r}): {line!r}",
+                              {"cfg": cfg, "ops": ["N 0", op], "impl": a, "model": m})
             # decode off vs on on the same line
             if dec == "0":
                 prev = (line, pa, op)
@@ -427,6 +440,31 @@ class C19(SentProp):
                     else:
                         ops += ["N 0", L(ais.sentence(payload), 0, 0)]
         yield ("first-char", ops)
+        # the type of a sentence must not depend on what the parser saw before: abandoned groups,
+        # delivered groups, middle fragments, tag blocks
+        ops = []
+        for _ in range(150 if tier == "quick" else 2000):
+            ops.append("N 0")
+            for _ in range(rng.randrange(2, 7)):
+                c = rng.choice(gen.ALPHABET)
+                payload = bytes([c]) + gen.random_alphabet(rng, rng.choice([1, 5, 27]))
+                shape = rng.randrange(5)
+                tb = rng.choice([None, None, b"s:1,c:2*00"])
+                if shape == 0:
+                    ops.append(L(ais.sentence(payload, tagblock=tb), 0, 0))
+                elif shape == 1:
+                    ops.append(L(ais.sentence(payload, nf=2, fn=1, mid=rng.choice([None, 1, 2]), tagblock=tb), 0, 0))
+                elif shape == 2:
+                    ops.append(L(ais.sentence(payload, nf=3, fn=2, mid=rng.choice([None, 1, 2])), 0, 0))
+                elif shape == 3:
+                    mid = rng.choice([None, 1])
+                    ops.append(L(ais.sentence(b"5" + gen.random_alphabet(rng, 3), nf=3, fn=1, mid=mid), 0, 0))
+                    ops.append(L(ais.sentence(payload, nf=3, fn=2, mid=mid), 0, 0))
+                else:
+                    mid = rng.choice([None, 1])
+                    ops.append(L(ais.sentence(b"8" + gen.random_alphabet(rng, 3), nf=2, fn=1, mid=mid), 0, 0))
+                    ops.append(L(ais.sentence(payload, nf=2, fn=2, mid=mid), 0, 0))
+        yield ("histories", ops)
 
     def judge(self, rep, cfg, label, ops, impl, model):
         for op, a, m in zip(ops, impl, model):
@@ -438,6 +476,9 @@ class C19(SentProp):
             if pa["cls"] not in ("C", "I"):
                 continue
             rep.nontrivial.add(op)
+            if pa["cls"] == "C" and pa["sent"]["nf"] != "1":
+                # a completed group reports the last fragment's own type (its data is the concatenation)
+                pass
             ref = ref_sentence(line)
             if ref[0] != "ok":
                 continue
